@@ -14,16 +14,16 @@ for c in cases:
     tmp = tempfile.mkdtemp(prefix="verif-benign-")
     try:
         subprocess.run(["rsync", "-a", "--exclude", ".git", "/repo/", tmp + "/"], check=True)
-        r = subprocess.run(["patch", "-p1", "-s", "-i", os.path.join(V, "selftest", "benign", c["patch"])], cwd=tmp, capture_output=True, text=True)
+        r = subprocess.run(["patch", "-p1", "-s", "-i", os.path.join(V, "selftest", "benign", c["patch"])], cwd=tmp, capture_output=True, text=True, errors="replace")
         if r.returncode != 0:
             print("PATCH-FAILED", c["patch"], r.stdout, r.stderr); bad += 1; continue
         env = dict(os.environ, GOFLAGS="-mod=mod", GOPROXY="off", GOSUMDB="off", GOTOOLCHAIN="local")
-        t = subprocess.run(["go", "test", "-count=1", "./..."], cwd=tmp, env=env, capture_output=True, text=True)
+        t = subprocess.run(["go", "test", "-count=1", "./..."], cwd=tmp, env=env, capture_output=True, text=True, errors="replace")
         if t.returncode != 0:
             print("SUITE-FAILS", c["patch"]); bad += 1; continue
         for pid in c["properties"]:
             env2 = dict(os.environ, VERIF_REPO=tmp, VERIF_EVIDENCE_DIR=os.path.join(tmp, ".evidence"))
-            r = subprocess.run([os.path.join(V, "check"), pid, "quick"], cwd=V, env=env2, capture_output=True, text=True)
+            r = subprocess.run([os.path.join(V, "check"), pid, "quick"], cwd=V, env=env2, capture_output=True, text=True, errors="replace")
             ok = r.returncode == 0
             tag = "ok" if ok else ("ACCEPTED-ALARM" if pid in c.get("accepted_alarm", []) else "FALSE-ALARM")
             print("%-14s %-50s %-4s exit=%d" % (tag, c["patch"], pid, r.returncode))
